@@ -47,6 +47,10 @@ def pyFloatStr (lexeme : String) : String :=
 
 def pyIntStr (lexeme : String) : String := String.ofList (stripLeadingZeros lexeme.toList)
 
+/-- `int(lexeme)` for a lexeme made of decimal digits (what the scanner produces for an integer
+NUMBER token). -/
+def digitsVal (ds : List Char) : Nat := ds.foldl (fun n c => 10 * n + (c.toNat - '0'.toNat)) 0
+
 def isFloatLexeme (lexeme : String) : Bool := lexeme.toList.contains '.'
 
 /-- numeric value of a NUMBER lexeme as (digits without the dot, number of fractional digits) -/
@@ -225,7 +229,7 @@ def resolve : Expr → R
       if numIsZero t.lexeme then pure (.c .negIntercept)
       else if numIsOne t.lexeme then pure (.c .intercept)
       else if isFloatLexeme t.lexeme then pure (.c (.term [.var (.flt (pyFloatStr t.lexeme)) none]))
-      else pure (.c (.term [.var (.int ((pyIntStr t.lexeme).toInt?.getD 0)) none]))
+      else pure (.c (.term [.var (.int (Int.ofNat (digitsVal t.lexeme.toList))) none]))
     | .STRING =>
       pure (.c (.term [.var (.str (String.ofList ((t.lexeme.toList.drop 1).dropLast))) none]))
     | _ =>
